@@ -504,6 +504,22 @@ coap_free_resource(coap_resource_t *resource) {
     coap_notify_observers(resource->context, resource, COAP_DELETING_RESOURCE);
   }
 
+  /*
+   * free all elements from resource->subscribers - before resource_deleted()
+   * is told: persisted observations must go before the persisted resource
+   * and its observe counter do
+   */
+  LL_FOREACH_SAFE(resource->subscribers, obs, otmp) {
+    if (resource->context->observe_deleted)
+      resource->context->observe_deleted(obs->session, obs,
+                                         resource->context->observe_user_data);
+    coap_session_release_lkd(obs->session);
+    coap_delete_pdu(obs->pdu);
+    coap_delete_cache_key(obs->cache_key);
+    coap_free_type(COAP_SUBSCRIPTION, obs);
+  }
+  resource->subscribers = NULL;
+
   if (resource->context->resource_deleted)
     resource->context->resource_deleted(resource->context, resource->uri_path,
                                         resource->context->observe_user_data);
@@ -517,17 +533,6 @@ coap_free_resource(coap_resource_t *resource) {
 
   /* Either the application provided or libcoap copied - need to delete it */
   coap_delete_str_const(resource->uri_path);
-
-  /* free all elements from resource->subscribers */
-  LL_FOREACH_SAFE(resource->subscribers, obs, otmp) {
-    if (resource->context->observe_deleted)
-      resource->context->observe_deleted(obs->session, obs,
-                                         resource->context->observe_user_data);
-    coap_session_release_lkd(obs->session);
-    coap_delete_pdu(obs->pdu);
-    coap_delete_cache_key(obs->cache_key);
-    coap_free_type(COAP_SUBSCRIPTION, obs);
-  }
   if (resource->proxy_name_count && resource->proxy_name_list) {
     size_t i;
 
